@@ -81,6 +81,8 @@ class C13(conncheck.ConnCheck):
             out.append({'name': 'app-close-3001', 'server': SERVER + ['close-empty'], 'handshake': ['hs-with-frame'], 'app': ['close-3001'], 'depth': None,
                         'max_dev': 2})
         out.append({'name': 'tls', 'server': SERVER, 'handshake': ['hs-ok'], 'depth': 3, 'url': 'wss://example.com/x'})
+        for sel in ('poll', 'select', 'kqueue'):
+            out.append({'name': 'selector/' + sel, 'server': SERVER, 'handshake': ['hs-ok'], 'depth': 3, 'selector': sel})
         out.append({'name': 'connect-fail', 'server': ['eof'], 'handshake': ['hs-ok'], 'depth': 1, 'refuse': True})
         return out
 
@@ -134,6 +136,7 @@ class C13(conncheck.ConnCheck):
         if cfg.get('refuse'):
             world.connect_faults = {0: OSError(111, 'Connection refused')}
         world.chooser = ch
+        world.selector_kind = cfg.get('selector', 'fake')
         state = {}
         run = W.Run(world, None)
         with world:
